@@ -227,3 +227,32 @@ pub fn run_job(job: &Value, slot: u32, serial: u32, progress: &Progress) -> JobO
         "panics": panics});
     JobOutcome { result, events }
 }
+
+
+/// `vh graph`: the execution graph of a program as every host of a configuration derives it.
+pub fn graph_case(case: &Value, slot: u32, serial: u32) -> Value {
+    let cfgs = configs(&case["cfg"], slot, serial);
+    let mut dumps = vec![];
+    for (h, cfg) in cfgs.into_iter().enumerate() {
+        let prog = case["prog"].clone();
+        let r = catch_unwind(AssertUnwindSafe(|| {
+            let env = StreamContext::new(cfg);
+            let mut it = Interp {
+                env: &env,
+                probes_on: false,
+                batch: None,
+                turns: None,
+                sinks: vec![],
+                crash: None,
+            };
+            it.top(&prog);
+            drop(std::mem::take(&mut it.sinks));
+            env.verif_execution_graph()
+        }));
+        match r {
+            Ok(d) => dumps.push(d),
+            Err(_) => dumps.push(json!({"host": h, "panic": true})),
+        }
+    }
+    json!({"id": case["id"], "cfg": case["cfg"], "dumps": dumps, "panics": std::mem::take(&mut *PANIC_LOG.lock())})
+}
